@@ -5,5 +5,7 @@ MCCfgSetQ == [max : {1, 2}, ttl : {0 - 1, 2}, pol : {"lru", "lfu", "fifo"}, shar
 MCOuts == {"ok", "e1"}
 MCKeys == {1, 2, 3}
 Inv == SizeBounded /\ OrderConsistent /\ HitIsLatestOfKey
+\* transition tour: every transition of the (small) model, printed with the level of its source state
+TourDump == PrintT(<<"EDGE", TLCGet("level"), ToJson([f |-> view, t |-> view', cfg |-> cfg, ev |-> ev'])>>)
 GenPrint == PrintT(<<"GEN", TLCGet("level"), ToJson([cfg |-> cfg, ev |-> ev])>>)
 =============================================================================
